@@ -22,6 +22,8 @@ ASSUMPTIONS = [
     "bytes pycoin produced; for BCH/BTG the reference uses the BIP143 digest with the fork id folded in for every signature and requires the 0x40 bit",
     "puzzle scripts are built by the harness from the templates' byte definitions, not by pycoin's contract API",
     "an input is 'asked for' when its index is in tx_in_idx_set (default: all); inputs already valid before a pass must come out byte-identical",
+    "hierarchical-keychain histories use compressed keys only (BIP32 keys are compressed by definition; Keychain.add_key_paths indexes the "
+    "compressed hash160); they keep ONE keychain for the whole history, register public paths first and add cosigner secrets pass by pass",
 ]
 EXPLANATION = "validity (pycoin and reference), canonical signature form, frame condition and the m-distinct-keys model are checked after every signing step"
 TIMEOUT = {"quick": 900, "thorough": 4 * 3600}
@@ -83,6 +85,19 @@ class ForkChecker(RS.TxChecker):
 
 # ---------------------------------------------------------------------------------------------------
 
+class HDKeys(G.Keys):
+    """keys that are BIP32 children of a few cosigner roots, for the hierarchical Keychain supply mechanism.
+    (Derivation itself is C09's business; here pycoin derives, the harness only needs to know the keys.)"""
+
+    def __init__(self, net, count=24, roots=4):
+        self.roots = [net.keys.bip32_seed(b"vmon-cosigner-%d" % j) for j in range(roots)]
+        self.path = ["%d/%d%s" % (i % 3, i, "" if i % 4 else "/7") for i in range(count)]
+        self.root_of = [i % roots for i in range(count)]
+        self.d = [self.roots[self.root_of[i]].subkey_for_path(self.path[i]).secret_exponent() for i in range(count)]
+        self.P = [C.mul(d, C.G) for d in self.d]
+        self._sig = {}
+
+
 class Puzzle:
     """one input's locking arrangement"""
 
@@ -93,11 +108,11 @@ class Puzzle:
         return "%s%s" % (self.kind, "" if self.m is None else "(%d/%d)" % (self.m, len(self.key_idx)))
 
 
-def make_puzzle(rng, keys, kind, nkeys_total, amount):
+def make_puzzle(rng, keys, kind, nkeys_total, amount, force_compressed=False):
     push = G.push
     if kind in ("p2pk", "p2pkh", "p2wpkh", "p2sh-p2wpkh"):
         ki = rng.randrange(nkeys_total)
-        comp = True if kind in ("p2wpkh", "p2sh-p2wpkh") else rng.random() < 0.7
+        comp = True if (kind in ("p2wpkh", "p2sh-p2wpkh") or force_compressed) else rng.random() < 0.7
         pub = keys.sec(ki, comp)
         if kind == "p2pk":
             return Puzzle(kind, push(pub) + b"\xac", [], [ki], None, [comp], amount)
@@ -124,7 +139,7 @@ def make_puzzle(rng, keys, kind, nkeys_total, amount):
         m = rng.choice([1, 2, min(n, 9), min(n, 10), min(n, 11), min(n, 12)])
     idx = [i % nkeys_total for i in rng.sample(range(max(n, nkeys_total)), n)] if n <= nkeys_total else list(range(n))
     witness_kind = wrapper in ("p2wsh", "p2sh-p2wsh")
-    comp = [True if (witness_kind or wrapper == "p2sh" and n > 7) else rng.random() < 0.8 for _ in idx]
+    comp = [True if (witness_kind or force_compressed or wrapper == "p2sh" and n > 7) else rng.random() < 0.8 for _ in idx]
     pubs = [keys.sec(i, c) for i, c in zip(idx, comp)]
     script = G.num(m) + b"".join(push(p) for p in pubs) + G.num(n) + b"\xae"
     if wrapper == "bare":
@@ -146,12 +161,15 @@ class History:
         self.fork = FORK.get(netcode, ("grs", 0) if netcode in GRS_NETS else ("", 0))
         self.flags = ALL16 & ~RS.STRICTENC if self.fork[0] in ("bch", "btg") else ALL16
         self.log = []
+        self.kc = None
 
     # -- construction ------------------------------------------------------------------------------
     def build(self):
         rng, Tx = self.rng, self.net.tx
         n_in = rng.choice([1, 1, 2, 2, 3, 5])
-        self.puzzles = [make_puzzle(rng, self.keys, rng.choice(KINDS), len(self.keys.d), rng.choice([1000, 600000000, 21 * 10 ** 14])) for _ in range(n_in)]
+        hd = isinstance(self.keys, HDKeys)      # BIP32 keys are compressed by definition
+        self.puzzles = [make_puzzle(rng, self.keys, rng.choice(KINDS), len(self.keys.d), rng.choice([1000, 600000000, 21 * 10 ** 14]), force_compressed=hd)
+                        for _ in range(n_in)]
         ins = [Tx.TxIn(G.rand_prev(rng), rng.randrange(4), b"", rng.choice([0xffffffff, 0xfffffffe, 0, 12345])) for _ in self.puzzles]
         n_out = rng.choice([1, 2, 3]) if rng.random() < 0.85 else max(1, n_in - 1)
         outs = [Tx.TxOut(rng.choice([0, 1, 5000, 10 ** 8]), rng.choice([b"\x51", b"\x76\xa9\x14" + bytes(20) + b"\x88\xac", b"\x6a\x01\x07"])) for _ in range(n_out)]
@@ -221,6 +239,20 @@ class History:
                 wifs.append(net.keys.private(self.keys.d[k], is_compressed=True).wif())
             st, r = observe(net.tx_utils.sign_tx, tx, wifs, p2sh_lookup=p2sh_lookup, **kwargs)
             self.rec.ev("tx_utils.sign_tx")
+        elif mechanism == "keychain_hd":
+            # one persistent hierarchical keychain per history: public paths registered up front, cosigner secrets
+            # arrive pass by pass (a key is available once its root's secret has been added)
+            if self.kc is None:
+                self.kc = net.keychain()
+                for j, root in enumerate(self.keys.roots):
+                    self.kc.add_key_paths(root.public_copy(), [self.keys.path[i] for i in range(len(self.keys.d)) if self.keys.root_of[i] == j])
+                self.kc.add_p2s_scripts(scripts)
+                self.kc_roots = set()
+            for k in sorted(key_indices):
+                self.kc_roots.add(self.keys.root_of[k])
+            self.kc.add_secrets([self.keys.roots[j] for j in sorted(self.kc_roots)])
+            st, r = observe(tx.sign, self.kc, p2sh_lookup=self.kc, **kwargs)
+            self.rec.ev("Tx.sign(keychain_hd)")
         else:
             kc = net.keychain()
             kc.add_secrets([net.keys.private(s) for s in secrets])
@@ -231,6 +263,13 @@ class History:
             self.rec.violation("sign.raises.%s" % type(r).__name__, self.case(), r, "signing returns")
             return False
         return True
+
+    def effective_keys(self, key_indices, mechanism):
+        """keys really available to the signer in this pass"""
+        if mechanism != "keychain_hd":
+            return set(key_indices)
+        roots = set(getattr(self, "kc_roots", set())) | {self.keys.root_of[k] for k in key_indices}
+        return {i for i in range(len(self.keys.d)) if self.keys.root_of[i] in roots}
 
     def generator(self):
         from pycoin.ecdsa.secp256k1 import secp256k1_generator
@@ -318,10 +357,12 @@ class History:
     # -- scenarios --------------------------------------------------------------------------------------
     def run(self):
         rng = self.rng
-        self.build()
-        mech = rng.choice(["dict", "dict", "wif", "keychain"])
+        mech = rng.choice(["dict", "dict", "wif", "keychain", "keychain_hd", "keychain_hd"])
         if self.netcode in GRS_NETS and mech == "wif":
             mech = "dict"       # WIF text needs groestlcoin_hash, absent here
+        if mech == "keychain_hd":
+            self.keys = hd_universe(self.net, self.netcode)
+        self.build()
         uncompressed_needed = any(not c for p in self.puzzles for c in p.compressed)
         if mech == "keychain" and False:
             pass
@@ -339,15 +380,17 @@ class History:
                 chosen.append(set(sub))
                 keys |= set(sub)
             if self.sign_with(keys, mech):
+                eff = self.effective_keys(keys, mech)
                 for i, p in enumerate(self.puzzles):
-                    self.signed_keys[i] |= (keys & set(p.key_idx))
+                    self.signed_keys[i] |= (eff & set(p.key_idx))
                 self.check_step(before, set(range(n)), set(), "all")
         elif scenario == "two_pass":
             first = set(rng.sample(range(n), max(1, n // 2)))
             k1 = {k for i in first for k in self.puzzles[i].key_idx}
             if self.sign_with(k1, mech):
+                eff = self.effective_keys(k1, mech)
                 for i, p in enumerate(self.puzzles):
-                    self.signed_keys[i] |= (k1 & set(p.key_idx))
+                    self.signed_keys[i] |= (eff & set(p.key_idx))
                 mid, _ = self.check_step(before, set(range(n)), set(), "pass1")
                 valid_now = {i for i in range(n) if self.expected_valid(i)}
                 k2 = {k for p in self.puzzles for k in p.key_idx}
@@ -371,9 +414,10 @@ class History:
                 valid_now = {i for i in range(n) if self.expected_valid(i)}
                 if not self.sign_with({k}, mech):
                     break
+                eff = self.effective_keys({k}, mech)
                 for i, p in enumerate(self.puzzles):
-                    if i not in valid_now and k in p.key_idx:
-                        self.signed_keys[i].add(k)
+                    if i not in valid_now:
+                        self.signed_keys[i] |= (eff & set(p.key_idx))
                 cur, _ = self.check_step(cur, set(range(n)), valid_now, "key %d" % k)
         else:   # wrong_keys: keys that are not listed, or too few
             listed = {k for p in self.puzzles for k in p.key_idx}
@@ -383,13 +427,23 @@ class History:
                 if p.m is not None and p.m > 1:
                     supply |= set(rng.sample(p.key_idx, p.m - 1))       # too few
             if self.sign_with(supply, mech):
+                eff = self.effective_keys(supply, mech)
                 for i, p in enumerate(self.puzzles):
-                    self.signed_keys[i] |= (supply & set(p.key_idx))
+                    self.signed_keys[i] |= (eff & set(p.key_idx))
                 self.check_step(before, set(range(n)), set(), "wrong_keys")
         kinds = tuple(sorted(p.brief() for p in self.puzzles))
         self.rec.case((self.netcode, kinds, tuple(tuple(p.compressed) for p in self.puzzles), self.hash_type, self.scenario, tuple(tuple(s["keys"]) for s in self.log)))
         self.rec.ev("scenario:" + scenario)
         self.rec.ev("net:" + self.netcode)
+
+
+_HD = {}
+
+
+def hd_universe(net, code):
+    if code not in _HD:
+        _HD[code] = HDKeys(net)
+    return _HD[code]
 
 
 def networks_for_slot(slot):
